@@ -242,3 +242,34 @@ pub fn contention_programs(_thorough: bool) -> Vec<Program> {
     });
     v
 }
+
+/// C19: writers racing the coordinator's round; nobody ever calls flush().
+pub fn write_behind_programs() -> Vec<Program> {
+    let t = Arc::new(tables());
+    let mut v = Vec::new();
+    let cfg = small(false, false, 12);
+    let bodies: Vec<(&str, Vec<Op>, Vec<Op>)> = vec![
+        ("insert;tick|insert-other", vec![ins(K, V1), Op::Tick], vec![ins(U, VU1)]),
+        ("insert;tick|overwrite-same", vec![ins(K, V1), Op::Tick], vec![ins(K, V1B)]),
+        ("insert;tick|insert-other;tick", vec![ins(K, V1), Op::Tick], vec![ins(U, VU1), Op::Tick]),
+        ("delete;tick|insert-other", vec![Op::Delete { k: K, ts: 0 }, Op::Tick], vec![ins(U, VU1)]),
+        ("overwrite;tick|delete-other", vec![ins(K, V2), Op::Tick], vec![Op::Delete { k: U, ts: 0 }]),
+        ("tick|insert;insert-other", vec![Op::Tick], vec![ins(K, V1B), ins(U, VU1)]),
+    ];
+    for (name, a, b) in bodies {
+        for (iname, setup) in [("empty", vec![]), ("both-durable", vec![ins(K, V1), ins(U, VU1), Op::Flush]), ("one-buffered", vec![ins(K, V1), Op::Flush, ins(U, VU1)])] {
+            if (name.starts_with("delete") || name.contains("delete-other")) && iname == "empty" {
+                continue;
+            }
+            v.push(Program {
+                name: format!("wb:{iname}:{name}"),
+                cfg,
+                tables: t.clone(),
+                setup,
+                threads: vec![a.clone(), b.clone()],
+                observe: vec![K, U],
+            });
+        }
+    }
+    v
+}
